@@ -168,7 +168,7 @@ type c05job struct {
 
 func TestC05(t *testing.T) {
 	hx.Main(t, "C05", func(r *hx.Run) {
-		r.Rule = "workflow shapes: 1-5 jobs with a random needs DAG (scalar/list form, mixed case; jobs written in random order, so needed jobs may come later in the file), per job 0-5 steps with ids placed at random (ids may coincide up to case across jobs), declared job outputs, a matrix (rows, include-only keys, exclude, or a row / include / whole matrix given by an expression), workflow_call and/or workflow_dispatch inputs, workflow_call secrets (declared / section absent) and outputs. One reference probe per line at positions where the context is available: steps.<id>[.outputs.x|.outcome|.conclusion] in run/env/if/with/name/working-directory of steps (run, shell and working-directory in any key order), in job outputs and environment.url; needs.<job>[.result|.outputs.<n>]; matrix.<key>; inputs.<n>; secrets.<n>; jobs.<job>.outputs.<n>; defined and undefined names, dot and ['x'] form, random case. Oracle: scope model built with the shape. Non-trivial = shape with >= 2 jobs or >= 2 steps and at least one defined and one undefined probe; distinct = YAML text."
+		r.Rule = "workflow shapes: 1-5 jobs with a random needs DAG (scalar/list form, mixed case; jobs written in random order, so needed jobs may come later in the file), per job 0-5 steps with ids placed at random (ids may coincide up to case across jobs), declared job outputs, a matrix (rows, include-only keys, exclude, or a row / include / whole matrix given by an expression), workflow_call and/or workflow_dispatch inputs, workflow_call secrets (declared / section absent) and outputs. One reference probe per line at positions where the context is available: steps.<id>[.outputs.x|.outcome|.conclusion] in run/env/if/with/name/working-directory of steps (run, shell and working-directory in any key order), in job outputs and environment.url; needs.<job>[.result|.outputs.<n>] (also inside nested sequences of matrix rows, after elements of mixed / unknown type); matrix.<key>; inputs.<n>; secrets.<n>; jobs.<job>.outputs.<n>; defined and undefined names, dot and ['x'] form, random case. Oracle: scope model built with the shape. Non-trivial = shape with >= 2 jobs or >= 2 steps and at least one defined and one undefined probe; distinct = YAML text."
 		r.Assumptions = []string{"probes are only placed where GitHub's availability table allows the context", "nested matrix value typing and jobs.<id>.result are not asserted", "inputs probes only when at least one input is declared"}
 		r.Check(t, "shapes", hx.N(2500, 60000), func(rt *rapid.T) {
 			c, nj, maxSteps := genC05Shape(rt, nil)
@@ -373,8 +373,29 @@ func genC05Shape(rt *rapid.T, extra func(g *c05gen)) (*c05Case, int, int) {
 		}
 		if j.hasMat {
 			y.ln("    strategy:")
-			for _, l := range j.matrixY {
+			for li, l := range j.matrixY {
 				y.ln("      %s", l)
+				if li == 0 && l == "matrix:" && g.b("gridprobes") {
+					// references inside a row whose values are sequences, after elements of mixed or
+					// unknown type (needs and inputs are available at jobs.<job_id>.strategy)
+					y.ln("        zzgrid:")
+					y.ln("          - - 1")
+					y.ln("            - true")
+					if g.b("gridany") {
+						y.ln("            - ${{ fromJSON('1') }}")
+					}
+					for k := 0; k < g.i("ngridprobes", 1, 3); k++ {
+						for try := 0; try < 8; try++ {
+							expr, kind, name, defined := g.jobLevelProbe(jobs, i, inputs, secrets, secretsDeclared, hasCall, autoSecrets)
+							if expr == "" || !(strings.HasPrefix(kind, "needs/") || strings.HasPrefix(kind, "inputs/")) {
+								continue
+							}
+							ln := y.ln("            - ${{ %s }}", g.embed(expr))
+							g.probe(ln, expr, kind+"@matrix-nested-sequence", name, defined)
+							break
+						}
+					}
+				}
 			}
 		}
 		// job-level probes go to job env (needs, matrix, inputs, secrets available there) or to with: for call jobs
